@@ -181,6 +181,9 @@ func (e *Engine) constVal(c *ssa.Const) Value {
 type FloatV struct{ F float64 }
 
 func (e *Engine) checkBudget() {
+	if !e.deadline.IsZero() && time.Now().After(e.deadline) {
+		panic(budgetErr{"harness deadline exceeded"})
+	}
 	if e.stats.Instrs > e.opt.MaxInstrs {
 		panic(budgetErr{fmt.Sprintf("instruction budget %d exceeded", e.opt.MaxInstrs)})
 	}
@@ -410,7 +413,7 @@ func (e *Engine) needNonNil(st *State, fr *Frame, p PtrV, pos token.Pos, exits *
 		return p, false
 	}
 	if p.NilIf != nil {
-		if !e.mustHold(st, e.tc.Not(p.NilIf), "nil pointer dereference", pos) {
+		if !e.mustHoldF(st, fr, exits, e.tc.Not(p.NilIf), "nil pointer dereference", pos) {
 			e.finish(st, fr, exitPanic, nil, "nil pointer dereference", exits)
 			return p, false
 		}
@@ -421,6 +424,30 @@ func (e *Engine) needNonNil(st *State, fr *Frame, p PtrV, pos token.Pos, exits *
 
 // obligation: cond must hold; if its negation is feasible a panic finding is
 // recorded.  Returns false when cond is definitely false (path ends).
+// mustHoldF: like mustHold, and when the violating side is feasible it also continues it as a real panic
+// exit of the current frame (so that deferred calls run and fmt's recover around String methods sees it).
+func (e *Engine) mustHoldF(st *State, fr *Frame, exits *[]exit, cond *Term, msg string, pos token.Pos) bool {
+	if cond.IsTrue() {
+		return true
+	}
+	if cond.IsFalse() || fr == nil || exits == nil {
+		return e.mustHold(st, cond, msg, pos)
+	}
+	e.stats.PanicChecks++
+	e.stats.Obligations++
+	neg := e.tc.Not(cond)
+	if e.reportPanic(st, neg, msg, pos) {
+		e.stats.Discharged++
+	} else if e.feasible(st, neg, "panic side") {
+		s2 := st.fork()
+		e.stats.States++
+		s2.assume(neg)
+		e.finish(s2, fr.clone(), exitPanic, nil, msg, exits)
+	}
+	st.assume(cond)
+	return true
+}
+
 func (e *Engine) mustHold(st *State, cond *Term, msg string, pos token.Pos) bool {
 	if cond.IsTrue() {
 		return true
@@ -772,6 +799,10 @@ func (e *Engine) step(st *State, fr *Frame, ins ssa.Instruction, idx int, q *pqu
 		if !ok {
 			return false
 		}
+		if ifk, isFork := v.(indexFork); isFork {
+			e.forkIndex(st, fr, x, ifk, idx, q, exits)
+			return false
+		}
 		fr.regs[x] = v
 	case *ssa.ChangeType:
 		fr.regs[x] = e.get(fr, x.X)
@@ -803,6 +834,10 @@ func (e *Engine) step(st *State, fr *Frame, ins ssa.Instruction, idx int, q *pqu
 	case *ssa.Index:
 		v, ok := e.index(st, fr, e.get(fr, x.X), e.get(fr, x.Index).(*Term), x.Index.Type(), x.Pos(), exits)
 		if !ok {
+			return false
+		}
+		if ifk, isFork := v.(indexFork); isFork {
+			e.forkIndex(st, fr, x, ifk, idx, q, exits)
 			return false
 		}
 		fr.regs[x] = v
@@ -914,7 +949,7 @@ func (e *Engine) step(st *State, fr *Frame, ins ssa.Instruction, idx int, q *pqu
 		sl := e.get(fr, x.X).(SliceV)
 		at := x.Type().(*types.Pointer).Elem().Underlying().(*types.Array)
 		n := int(at.Len())
-		if !e.mustHold(st, c.BVUle(c.BV(uint64(n), 64), sl.Len), "slice to array pointer: length too short", x.Pos()) {
+		if !e.mustHoldF(st, fr, exits, c.BVUle(c.BV(uint64(n), 64), sl.Len), "slice to array pointer: length too short", x.Pos()) {
 			e.finish(st, fr, exitPanic, nil, "slice to array conversion", exits)
 			return false
 		}
@@ -974,6 +1009,27 @@ func (e *Engine) step(st *State, fr *Frame, ins ssa.Instruction, idx int, q *pqu
 		panic(unsupported(fmt.Sprintf("instruction %T", ins)))
 	}
 	return true
+}
+
+// forkIndex continues one state per feasible value of a symbolic index (elements of different shapes).
+func (e *Engine) forkIndex(st *State, fr *Frame, x ssa.Value, ifk indexFork, idx int, q *pqueue, exits *[]exit) {
+	w := ifk.idx.Sort.W
+	var feas []int
+	for i := range ifk.elems {
+		if e.feasible(st, e.tc.Eq(ifk.idx, e.tc.BV(uint64(i), w)), "index value") {
+			feas = append(feas, i)
+		}
+	}
+	for k, i := range feas {
+		s2, f2 := st, fr
+		if k < len(feas)-1 {
+			s2, f2 = st.fork(), fr.clone()
+			e.stats.States++
+		}
+		s2.assume(e.tc.Eq(ifk.idx, e.tc.BV(uint64(i), w)))
+		f2.regs[x] = ifk.elems[i]
+		e.execBlock(s2, f2, idx+1, q, exits)
+	}
 }
 
 func (e *Engine) makeIface(t types.Type, v Value) Value {
